@@ -767,6 +767,9 @@ func runCase(t tcase) ([]panicRec, []errIssue, string) {
 	case "bulk-inproc":
 		return runBulkInproc(t)
 	}
+	if t.Stream == "edge" {
+		return pipelineOpts([]byte(t.Doc), t.Entry, true)
+	}
 	return pipelineEntry([]byte(t.Doc), t.Entry)
 }
 
@@ -819,7 +822,7 @@ func causeKey(t tcase) string {
 	if j := strings.Index(k, "="); j > 0 {
 		k = k[:j]
 	}
-	if strings.HasPrefix(k, "num-text:") || strings.HasPrefix(k, "legacy:") || strings.HasPrefix(k, "dup-strip:") {
+	if strings.HasPrefix(k, "num-text:") || strings.HasPrefix(k, "legacy:") || strings.HasPrefix(k, "dup-strip:") || strings.HasPrefix(k, "arith") || strings.HasPrefix(k, "meta:") {
 		k = k[:strings.Index(k, ":")]
 	}
 	return t.Stream + "|" + k + "|" + reIdx.ReplaceAllString(t.Path, "[]")
